@@ -21,34 +21,6 @@ def nontrivial(sc, ob, verdict):
 
 
 def classify(sc, ob, verdict):
-    conns = sx.field(sc[1:], "conns")
-    if not conns:
-        return None
-    kind = conns[0][0]
-    srcp = conns[0][1]
-    acts = sx.field(sc[1:], "script")
-    if kind == "replay" and srcp[0] == "cold":
-        return "D11"       # synchronous cold source under replay(): the first subscriber gets the items live and again in the replay
-    if kind in ("refcount", "replay"):
-        # D12b: a subscriber arriving after the subscriber count returned to 0, or after the source's terminal, finds no source subscription
-        live = 0
-        went_zero = False
-        term = False
-        for a in acts:
-            if a[0] == "sub":
-                if (went_zero or term):
-                    return "D12b"
-                live += 1
-            elif a[0] == "unsub":
-                if live > 0:
-                    live -= 1
-                    if live == 0:
-                        went_zero = True
-            elif a[0] == "emit" and a[2][0] in ("c", "e"):
-                term = True
-                live = 0
-        if srcp[0] == "cold":
-            return "D12b"   # a finite synchronous source terminates inside the first subscribe: every later subscriber is 'after the terminal'
     return None
 
 
@@ -76,9 +48,46 @@ def hist_actions(rng, kind, hot, length):
     return acts
 
 
+def enum_histories(kind, L, rng, keep):
+    """all histories of length <= L over a reduced alphabet, hot source; each subscriber subscribes at most once"""
+    import itertools
+    alpha = [("sub", 0), ("sub", 1), ("unsub", 0), ("unsub", 1), ("emit", n(1)), ("emit", C)]
+    if kind == "publish":
+        alpha = [("sub", 0), ("sub", 1), ("unsub", 0), ("emit", n(1)), ("emit", C), ("connect",), ("disconnect",)]
+    for k in range(2, L + 1):
+        for hist in itertools.product(alpha, repeat=k):
+            if k >= 5 and rng.random() > keep:
+                continue
+            used, acts, nconn, ok = set(), [], 0, True
+            for h in hist:
+                if h[0] == "sub":
+                    if h[1] in used:
+                        ok = False
+                        break
+                    used.add(h[1])
+                    acts.append(sub(h[1], ["conn", 0]))
+                elif h[0] == "unsub":
+                    acts.append(["unsub", h[1]])
+                elif h[0] == "emit":
+                    acts.append(["emit", 0, h[1]])
+                elif h[0] == "connect":
+                    acts.append(["connect", 0, nconn])
+                    nconn += 1
+                else:
+                    if nconn == 0:
+                        ok = False
+                        break
+                    acts.append(["disconnect", nconn - 1])
+            if ok and used:
+                yield acts
+
+
 def generate(rng, tier, focus):
     cases = []
     thorough = tier == "thorough"
+    for kind in ["publish", "refcount", "replay"]:
+        for acts in enum_histories(kind, 6 if thorough else 5, rng, 0.5 if thorough else 0.35):
+            cases.append((scn(subjects=[["subject"]], conns=[[kind, ["hot", 0]]], handles=3, script_=acts), {"k": "exhaustive"}))
     for _ in range(30000 if thorough else 3000):
         kind = rng.choice(["publish", "refcount", "replay"])
         hot = rng.random() < 0.65
